@@ -803,6 +803,7 @@ theorem Inv.applyOp {hm : HM} (h : Inv hm) (op : Op) (hf : ∀ m o, op = .addMod
   | addTransition e src dst pass => exact h.addTransition e src dst pass
   | removeTransition e src dst => exact h.removeTransition e src dst
   | addModel m o => exact h.addModel m o (hf m o rfl)
+  | failing e => exact h
   | fire m e => exact h.fire m e
 
 theorem Inv.run : ∀ (ops : List Op) (hm : HM), Inv hm → OpsFresh ops → Inv (run hm ops)
@@ -882,6 +883,7 @@ theorem applyOp_consts (hm : HM) (op : Op) : SameConsts hm (applyOp hm op).1 := 
   | addTransition e src dst pass => exact addTransition_consts hm e src dst pass
   | removeTransition e src dst => exact removeTransition_consts hm e src dst
   | addModel m o => exact addModel_consts hm m o
+  | failing e => exact SameConsts.refl _
   | fire m e => exact fire_consts hm m e
 
 theorem run_consts : ∀ (ops : List Op) (hm : HM), SameConsts hm (run hm ops)
@@ -1285,6 +1287,7 @@ theorem FInv.run {hyg : Prop} (all : List Op) : ∀ (ops : List Op) (hm : HM), h
     | addTransition e src dst pass => exact h.addTransition hov e src dst pass
     | removeTransition e src dst => exact h.removeTransition e src dst (fun hh => hf hh e src dst (List.mem_cons_self ..))
     | addModel m o => exact h.addModel hov m o (hsub _ (List.mem_cons_self ..))
+    | failing e => exact h
     | fire m e => exact h.fire m e
 
 /-! ### auto transitions -/
@@ -1543,6 +1546,7 @@ theorem AutoInv.run : ∀ (ops : List Op) (hm : HM), AutoInv hm → UserEvents o
     | addTransition e src dst pass => exact h.addTransition_user e src dst pass (hu.1 e src dst pass (List.mem_cons_self ..))
     | removeTransition e src dst => exact h.removeTransition e src dst (hu.2 e src dst (List.mem_cons_self ..))
     | addModel m o => exact h.addModel m o
+    | failing e => exact h
     | fire m e => exact h.fire m e
 
 theorem AutoInv.new (attr : Name) (ov auto : Bool) : AutoInv (HM.new attr ov auto) :=
@@ -1978,6 +1982,7 @@ theorem TInv.run (all : List Op) : ∀ (ops : List Op) (hm : HM), hm.override = 
     | addTransition e src dst pass => exact h.addTransition hov e src dst pass
     | removeTransition e src dst => exact h.removeTransition e src dst
     | addModel m o => exact h.addModel hov m o (hsub _ (List.mem_cons_self ..))
+    | failing e => exact h
     | fire m e => exact h.fire m e
 
 end Helpers
